@@ -1,7 +1,7 @@
 """C10 - floor / ceil / round return the mathematically defined value and carry the unit."""
 import json, time
 from fractions import Fraction
-from core import build, exact
+from core import build, exact, boundary
 from core.driver import Driver, DriverDied, DriverTimeout
 from core.run import Acc, finish, rng_for, run_shards, NCPU
 
@@ -12,6 +12,10 @@ RULE = ("floor(x), ceil(x), round(x), round(x,n) for x = p/q spelled as `p / q` 
         "result compared exactly with floor/ceil/half-away-from-zero rounding on Fraction; the result's unit structure must equal "
         "that of the bare argument; wrong arity must be an error; debug and release builds. "
         "non-trivial = distinct call whose argument is not an integer, or is negative, or has a unit, or n != 0")
+
+class BFraction(Fraction):
+    """A Fraction remembered as coming from the boundary dictionary."""
+    _boundary = True
 
 def dec_text(x):
     """Exact decimal spelling of a terminating fraction, else None."""
@@ -35,6 +39,11 @@ def dec_text(x):
 def gen_x(rng):
     k = rng.choice([0, 1, -1, 2, -2, 7, -7, rng.randint(-50, 50), rng.randint(-10 ** 6, 10 ** 6), rng.randint(-10 ** 30, 10 ** 30)])
     r = rng.random()
+    if rng.random() < 0.04:
+        # machine-word boundaries in the reduced numerator (-2^63 over an odd denominator, 2^64 + 1 over 10 ...): fixed-width
+        # fast paths in floor/ceil/round (seed C10-c); plus the same with a half added
+        n, d = boundary.fraction_parts(rng)
+        return BFraction(Fraction(n, d) + rng.choice([0, 0, 0, Fraction(1, 2), Fraction(-1, 2)]))
     if r < 0.15:
         return Fraction(k)
     if r < 0.35:
@@ -61,15 +70,21 @@ def shard(p):
     acc = Acc()
     rng = rng_for(p["seed"], PID, p["shard"])
     cases = []
+    pending = []
     for _ in range(p["n"]):
-        x = gen_x(rng)
+        if pending:
+            x, forced = pending.pop()
+        else:
+            x, forced = gen_x(rng), None
+            if getattr(x, "_boundary", False) or rng.random() < 0.02:
+                pending = [(x, f) for f in ("floor", "ceil", "round")]      # boundary-ish values go through all three functions
         unit = rng.choice(UNITS)
         xs = spell(rng, x)
         if unit and "/" in xs:
             xs_u = "(" + xs + ")" + " * 1" + unit          # a quotient with a unit: (p / q) * 1 m
         else:
             xs_u = xs + unit
-        fn = rng.choice(["floor", "ceil", "round", "round2", "round2", "arity"])
+        fn = forced or rng.choice(["floor", "ceil", "round", "round2", "round2", "arity"])
         if fn == "arity":
             name = rng.choice(["floor", "ceil", "round"])
             nargs = rng.choice([0, 2, 3] if name != "round" else [0, 3])
